@@ -268,7 +268,7 @@ def random_cfg(rng):
     return dict(esmtp=rng.random() < 0.4,
                 mk=[False, rng.random() < 0.15, rng.random() < 0.15],
                 eom=[rng.choice(["ok", "ok", "later", "fail"]) for _ in range(3)],
-                picky=[rng.random() < 0.2 for _ in range(3)])
+                picky=[rng.random() < 0.3 for _ in range(3)])
 
 
 def random_ops(rng, n):
@@ -277,7 +277,7 @@ def random_ops(rng, n):
     verdict = lambda: rng.choice(["ok", "ok", "ok", "bad", "later", "later"])
     for _ in range(n):
         x = rng.random()
-        if x < 0.55:
+        if x < 0.66:
             if phase == 0:
                 op = (rng.choice(["helo", "helo", "ehlo"]), rng.choice([1, 2]))
             elif phase == 1:
@@ -287,11 +287,18 @@ def random_ops(rng, n):
             elif phase == 3:
                 op = rng.choice([("rcpt", rng.choice([1, 2, 3]), verdict()), ("data",), ("data",)])
             else:
-                op = rng.choice([("body", rng.choice([1, 2, 2, 3, 4])), ("dot",), ("dot",)])
-            phase = {0: 1, 1: 2, 2: 3}.get(phase, 3 if op[0] == "rcpt" else (4 if op[0] == "data" else (1 if op[0] == "dot" else phase)))
-        elif x < 0.75:
-            op = ("fire", rng.randint(1, 4), rng.random() < 0.7)
+                op = rng.choice([("body", rng.choice([1, 2, 3, 4, 4])), ("body", rng.choice([1, 2, 3, 4, 4])), ("dot",)])
+            if op[0] in ("helo", "ehlo"):
+                phase = 1
+            elif op[0] in ("mail", "rcpt"):
+                phase = phase + 1 if (op[2] == "ok" and phase < 3) else phase
+            elif op[0] == "data":
+                phase = 4
+            elif op[0] == "dot":
+                phase = 1
         elif x < 0.80:
+            op = ("fire", rng.randint(1, 4), rng.random() < 0.7)
+        elif x < 0.83:
             op = ("rset",)
             phase = min(phase, 1) if phase != 4 else 4
         else:
@@ -317,7 +324,7 @@ def build_traces(ctx):
         for seq in itertools.product(LATE, repeat=n):
             traces.append(run_history(LATE_CFG, pre + list(seq)))
     nlate = len(traces) - nex
-    for _ in range(ctx.pick(1500, 30000)):
+    for _ in range(ctx.pick(1200, 30000)):
         traces.append(run_history(random_cfg(ctx.rng), random_ops(ctx.rng, ctx.rng.randint(4, 28))))
     ctx.extra["histories"] = dict(exhaustive_core=nex, exhaustive_late=nlate, random=len(traces) - nex - nlate)
     return traces
@@ -330,7 +337,7 @@ def fingerprint(t, reached):
 
 def run(ctx):
     ctx.mc("SmtpSessionMC", ctx.pick("SmtpSessionMC.cfg", "SmtpSessionMC.thorough.cfg"), label="wide")
-    ctx.mc("SmtpSessionMC", ctx.pick("SmtpSessionMC.deep.cfg", "SmtpSessionMC.deep.thorough.cfg"), label="deep")
+    ctx.mc("SmtpSessionMC", ctx.pick("SmtpSessionMC.deep.cfg", "SmtpSessionMC.deep.thorough.cfg"), label="deep", coverage=False)
     ctx.require_actions("SmtpSessionMC", ["Connect", "Helo", "Ehlo", "Mail", "Rcpt", "Data", "Rset", "Quit", "Dot", "Body",
                                            "Long", "Idle", "Fire", "Lost"])
     traces = build_traces(ctx)
